@@ -410,6 +410,66 @@ fn k10_dict_btree_1() {
     check!(dec.remaining() == 0, "decoding consumes exactly the bytes written");
 }
 
+fn stub_random_state() -> std::hash::RandomState {
+    unsafe { core::mem::transmute::<(u64, u64), std::hash::RandomState>((0, 0)) }
+}
+
+//@ prop: C10
+//@ family: K10-dict
+//@ tier: quick
+//@ functions: <&BTreeMap<u8,u8> as EncodeInto>::encode_into, <&HashMap<u8,u8> as EncodeInto>::encode_into (impl_encode_into_on_dictionary_type!), <BTreeMap<u8,u8> as DecodeFrom>::decode_from
+//@ inst: Encoder<SliceOutputTarget>, Decoder<SliceInputSource>; the EMPTY dictionary of either map type (symbolic selector), followed by one more encoded byte
+//@ inputs: map type; the byte encoded after the dictionary
+//@ oracle: output == [0x00, next byte]: an empty dictionary still writes its size; decoding gives an empty map and leaves the next byte
+//@ stubs: std::hash::RandomState::new -> fixed keys (HashMap::new())
+//@ bound: unwind 3
+#[kani::proof]
+#[kani::unwind(3)]
+#[kani::stub(std::hash::RandomState::new, stub_random_state)]
+fn k10_dict_empty() {
+    let hash: bool = kani::any();
+    let next: u8 = kani::any();
+    let guard: u8 = kani::any();
+    let mut buf = [guard; 3];
+    let written;
+    {
+        let mut enc: Encoder<SliceOutputTarget> = Encoder::from(&mut buf[..]);
+        let r = if hash {
+            let m: std::collections::HashMap<u8, u8> = std::collections::HashMap::new();
+            let r = enc.encode(&m);
+            core::mem::forget(m);
+            r
+        } else {
+            let m: BTreeMap<u8, u8> = BTreeMap::new();
+            let r = enc.encode(&m);
+            core::mem::forget(m);
+            r
+        };
+        check!(r.is_ok(), "encoding an empty dictionary succeeds");
+        core::mem::forget(r);
+        let r2 = enc.encode(next);
+        check!(r2.is_ok(), "encoding the following byte succeeds");
+        core::mem::forget(r2);
+        written = 3 - enc.remaining();
+    }
+    kani::cover!(hash, "empty HashMap reachable");
+    kani::cover!(!hash, "empty BTreeMap reachable");
+    check!(written == 2, "an empty dictionary occupies exactly its size byte");
+    check!(buf[0] == 0 && buf[1] == next && buf[2] == guard, "size 0, then the following data, nothing else");
+    let mut dec: Decoder<SliceInputSource> = Decoder::from(&buf[..2]);
+    match dec.decode::<BTreeMap<u8, u8>>() {
+        Ok(d) => {
+            check!(d.len() == 0, "the empty dictionary round-trips");
+            core::mem::forget(d);
+        }
+        Err(e) => {
+            core::mem::forget(e);
+            check!(false, "decoding the encoder's own output fails");
+        }
+    }
+    check!(dec.remaining() == 1, "only the size byte is consumed");
+}
+
 //@ prop: C10
 //@ family: K10-seq
 //@ tier: thorough
